@@ -284,7 +284,17 @@ pub fn find(id: &str) -> Option<&'static PropSpec> {
 
 pub fn runner(id: &'static str, tier: Tier) -> Box<RunFn> {
     match id {
-        "C05" => Box::new(move |ch, rep| engines::streamsim::run(tier, ch, rep)),
+        "C05" => Box::new(move |ch, rep| {
+            // one run in 64 (decided by the run seed, not by a choice, so that the
+            // byte-stream runs keep their choice sequences) takes the oversize
+            // clause through the whole rumqttc client: the incoming limit lives
+            // in `Network`, which only the event loop reaches
+            if ch.seed % 64 == 0 {
+                engines::clientsim::run(engines::clientsim::P::C05, tier, ch, rep)
+            } else {
+                engines::streamsim::run(tier, ch, rep)
+            }
+        }),
         "C02" => Box::new(move |ch, rep| engines::clientsim::run(engines::clientsim::P::C02, tier, ch, rep)),
         "C07" => Box::new(move |ch, rep| engines::clientsim::run(engines::clientsim::P::C07, tier, ch, rep)),
         "C10" => Box::new(move |ch, rep| engines::clientsim::run(engines::clientsim::P::C10, tier, ch, rep)),
